@@ -19,17 +19,17 @@ TInit == /\ tid \in 1..Len(Traces) /\ l = 1
          /\ InitWith(Traces[tid].cfg)
 
 ObsSend == /\ phase = "build" /\ cfg.mode = "split" /\ E.e = "send"
-           /\ AcceptsX(cfg, E.text, E.stream, E.exc # "", CheckLen)
-           /\ text' = E.text /\ stream' = E.stream /\ err' = (E.exc # "") /\ phase' = "sent"
+           /\ text' = E.text /\ stream' = E.stream /\ lines' = Lines(E.stream) /\ err' = (E.exc # "") /\ phase' = "sent"
+           /\ AcceptsX(cfg, text', lines', err', CheckLen)
            /\ UNCHANGED <<cfg, q, back>>
 
 ObsQuote == /\ phase = "build" /\ cfg.mode \in {"low", "ctcp"} /\ E.e = "quote" /\ E.exc = ""
             /\ E.back = E.text
             /\ (Strict => E.q = RefQuote(cfg.mode, E.text))
             /\ text' = E.text /\ q' = E.q /\ back' = E.back /\ phase' = "quoted"
-            /\ UNCHANGED <<cfg, stream, err>>
+            /\ UNCHANGED <<cfg, stream, lines, err>>
 
-Step(A) == /\ l <= Len(T.ev) /\ A /\ SplitOK' /\ QuoteOK' /\ l' = l + 1 /\ UNCHANGED tid
+Step(A) == /\ l <= Len(T.ev) /\ A /\ QuoteOK' /\ l' = l + 1 /\ UNCHANGED tid
 StepNoLen(A) == /\ l <= Len(T.ev) /\ A /\ l' = l + 1 /\ UNCHANGED tid
 TNext == IF CheckLen THEN Step(ObsSend) \/ Step(ObsQuote) ELSE StepNoLen(ObsSend) \/ StepNoLen(ObsQuote)
 TSpec == TInit /\ [][TNext]_<<vars, tid, l>>
